@@ -51,10 +51,13 @@ enum Op {
     Setup,
     /// the common idiom `while d.running() { .. }`: completion is first seen by running()
     PollUntilDone,
+    /// the deprecated spellings of world() / world_mut()
+    Res,
+    MutRes,
 }
 
-const OPS: [Op; 14] = [Op::Dispatch, Op::Dispatch, Op::Dispatch, Op::DispatchHeld, Op::DispatchHeld, Op::Running, Op::Running, Op::Wait, Op::WaitNoTl, Op::World, Op::WorldMut, Op::Setup, Op::PollUntilDone, Op::PollUntilDone];
-const BLOCKING: [Op; 6] = [Op::Wait, Op::WaitNoTl, Op::World, Op::WorldMut, Op::Setup, Op::Dispatch];
+const OPS: [Op; 16] = [Op::Res, Op::MutRes, Op::Dispatch, Op::Dispatch, Op::Dispatch, Op::DispatchHeld, Op::DispatchHeld, Op::Running, Op::Running, Op::Wait, Op::WaitNoTl, Op::World, Op::WorldMut, Op::Setup, Op::PollUntilDone, Op::PollUntilDone];
+const BLOCKING: [Op; 8] = [Op::Wait, Op::WaitNoTl, Op::World, Op::WorldMut, Op::Setup, Op::Dispatch, Op::Res, Op::MutRes];
 
 const PROFILES: [Profile; 5] = [Profile::Tiny, Profile::Dense, Profile::Mixed, Profile::Batchy, Profile::SparseWide];
 
@@ -67,7 +70,18 @@ fn case(rng: &mut Rng, pools: &mut Pools, rep: &mut Report, case_no: u64) {
     let mut c = cfg_for(profile, rng);
     c.n = (c.n.0.min(2), c.n.1.min(12));
     c.tl = (0, 2);
-    let plan = gen_with(rng, &c);
+    let plan = if case_no % 40 == 39 {
+        // a plan with several hundred stages: every system writes the same resource
+        let n = rng.range(257, 330);
+        let sl = Slot::new(rng.below(NTYPES), rng.below(NDYN));
+        Plan {
+            items: (0..n)
+                .map(|i| Item::Sys(SysSpec { uid: i as u32 + 1, name: format!("s{}", i + 1), deps: vec![], reads: vec![], writes: vec![sl], time: 3, kind: Kind::Dyn }))
+                .collect(),
+        }
+    } else {
+        gen_with(rng, &c)
+    };
     let pool_size = *rng.pick(&POOL_SIZES);
     let pool = pools.get(pool_size);
     rep.evaluations += 1;
@@ -143,6 +157,14 @@ fn case(rng: &mut Rng, pools: &mut Pools, rep: &mut Report, case_no: u64) {
         }
         Op::Setup => ad.setup(),
         Op::PollUntilDone => {}
+        #[allow(deprecated)]
+        Op::Res => {
+            let _ = ad.res();
+        }
+        #[allow(deprecated)]
+        Op::MutRes => {
+            let _ = ad.mut_res();
+        }
     };
 
     for _ in 0..hist_len {
